@@ -9,7 +9,8 @@ RULE = ("conforming PPS built from a boundary table (ids 0..255, all 7 slice-gro
         "rectangles, change rates and explicit ids of ceil(log2) bits, ref-idx defaults, QP/QS/chroma offsets at their bounds, "
         "with and without the extension tail, 6/8/12 picture scaling lists) x contexts holding the referenced SPS (chroma "
         "format, bit depth, separate planes, sizes up to 2^32 macroblocks vary), as contiguous RBSP and escaped chunked NALs; "
-        "malformed stream: truncations, bit flips, out-of-range elements, missing SPS, trailing garbage. "
+        "explicit maps of 4095..8192 ids through the model and of 32768..139264 (thorough 2^20) ids on the implementation against "
+        "an independent re-read of the bits; one Exp-Golomb element displaced by a multiple of 256; malformed stream: truncations, bit flips, out-of-range elements, missing SPS, trailing garbage. "
         "observable: Debug rendering of the result / the error. non-trivial = parse got past the SPS lookup")
 CORRESPONDENCE = "Model/Pps.v pps_from_bits vs PicParameterSet::from_bits"
 ASSUMPTIONS = ["context holds SPS values returned by the SPS parser (history quantifier)"]
@@ -74,10 +75,61 @@ def gen(tier, rng):
                 q["ext"], q["second_chroma_qp"] = True, rng.choice([13, -13, 100])
             cases.append("pps %s raw:%s" % (ctx, hx(g.enc_pps(q, rng).bytes())))
             cases.append("pps - raw:%s" % hx(rb))
+    # explicit slice-group maps of real picture sizes (MaxFS of levels 5.1 / 6.2 are 36864 / 139264 map units) and around
+    # powers of two.  The model's loop appends to its list (quadratic): up to 8192 ids go through the model, larger maps to the
+    # implementation only, judged against the ids re-read from the bits by big_map_check
+    from vlib import bitgen
+    sizes = [4095, 4096, 4097, 8192] if tier == "quick" else [1023, 1024, 4095, 4096, 4097, 8191, 8192, 8193, 16384]
+    bigs = [32768, 36863, 36864, 36865, 65535, 65536, 65537, 139264] + ([139265, 262145, 1 << 20] if tier != "quick" else [])
+    for cnt in sizes + bigs:
+        for ng in ((1, 3, 7) if cnt in bigs else (3,)):
+            s = g.gen_sps(rng, sps_id=0, small=True)
+            p = g.gen_pps(rng, s, pps_id=rng.choice([0, 7]), force={"num_slice_groups_minus1": ng, "map_type": 6, "npix": cnt - 1})
+            cases.append(("!" if cnt in bigs else "") + "pps S%s raw:%s" % (hx(g.sps_nal(s, rng)), hx(g.enc_pps(p, rng).bytes())))
+    # one Exp-Golomb element displaced by a multiple of 256 (what a narrowing cast would alias onto the valid value)
+    for i in range(1200 if tier == "quick" else 25000):
+        s = g.gen_sps(rng, sps_id=rng.choice([0, 3]), small=True, force={"profile_idc": 100} if i % 3 == 0 else {})
+        pf = {"num_slice_groups_minus1": rng.choice([1, 2, 7]), "map_type": i // 2 % 7} if i % 2 else {}
+        p = g.gen_pps(rng, s, force=pf)
+        cases.append("pps S%s raw:%s" % (hx(g.sps_nal(s, rng)), hx(bitgen.aliased(rng, lambda: g.enc_pps(p, rng).bytes()))))
     for _ in range(300 if tier == "quick" else 6000):
         s = g.gen_sps(rng, sps_id=0, small=True)
         cases.append("pps S%s raw:%s" % (hx(g.sps_nal(s, rng)), hx(bytes([0x80 | rng.randrange(128)] + [rng.randrange(256) for _ in range(rng.randrange(0, 12))]))))
     return cases
+
+
+def big_map_check(r):
+    """implementation-only cases: the ids the crate reports are the ids in the bits (read here by an independent reader)"""
+    raw = bytes.fromhex(r["case"].split("raw:")[1])
+    bits = "".join("{:08b}".format(b) for b in raw)
+    pos = [0]
+
+    def ue():
+        z = 0
+        while bits[pos[0]] == "0":
+            z += 1
+            pos[0] += 1
+        pos[0] += 1
+        v = int(bits[pos[0]:pos[0] + z] or "0", 2)
+        pos[0] += z
+        return (1 << z) - 1 + v
+    ue(), ue()
+    pos[0] += 2
+    ng, mt, m1 = ue(), ue(), ue()
+    if mt != 6:
+        return None
+    size = {1: 1, 2: 2, 3: 2}.get(ng, 3)
+    ids = [int(bits[pos[0] + i * size: pos[0] + (i + 1) * size], 2) for i in range(m1 + 1)]
+    want = "slice_group_id:[%s]" % ",".join(map(str, ids))
+    if want not in r["dev"]:
+        return ("value", "explicit slice-group map of %d units: the reported ids are not the ids in the bits (%s)" % (m1 + 1, r["dev"][:120]))
+    return None
+
+
+def extra_check(r):
+    if r["case"].startswith("!pps"):
+        return big_map_check(r)
+    return None
 
 
 def nontrivial(r):
